@@ -34,6 +34,10 @@ Lemma p_op0_S f i0 : p_op0' (S f) i0 =
   end.
 Proof. reflexivity. Qed.
 
+(* a keyword that does not even match as a plain tag is refused *)
+Lemma kw_none_of_tag k i : tag k i = None -> kw k i = None.
+Proof. intros H. unfold kw. rewrite H. reflexivity. Qed.
+
 (* p_if when the keyword `if` is absent: only the ternary form *)
 Lemma p_if_S_noif f i0 : tag KW_IF (skip_blank i0) = None -> p_if' (S f) i0 =
   let i := skip_blank i0 in
@@ -57,10 +61,10 @@ Lemma p_if_S_noif f i0 : tag KW_IF (skip_blank i0) = None -> p_if' (S f) i0 =
     end
   | PErr => PErr | PFail => PFail | PPanic => PPanic
   end.
-Proof. intros H. cbn [p_if]. cbv zeta. rewrite H. reflexivity. Qed.
+Proof. intros H. cbn [p_if]. cbv zeta. rewrite (kw_none_of_tag _ _ H). reflexivity. Qed.
 
 Lemma p_let_S_nolet f i0 : tag KW_LET (skip_blank i0) = None -> p_let' (S f) i0 = PErr.
-Proof. intros H. cbn [p_let]. cbv zeta. rewrite H. reflexivity. Qed.
+Proof. intros H. cbn [p_let]. cbv zeta. rewrite (kw_none_of_tag _ _ H). reflexivity. Qed.
 
 Lemma p_rule_S f name i0 : p_rule' (S f) name i0 =
   match find_level levels name with
